@@ -6,6 +6,8 @@ import (
 	"encoding/binary"
 	"flag"
 	"fmt"
+	"io"
+	"log"
 	"net"
 	"net/netip"
 	"os"
@@ -48,6 +50,11 @@ func main() {
 		fmt.Fprintf(os.Stderr, "unknown stream %q\n", *stream)
 		os.Exit(2)
 	}
+	// clients built with the debug flag print every message: results go to files, so drop what the library prints
+	if devnull, err := os.OpenFile(os.DevNull, os.O_WRONLY, 0); err == nil {
+		os.Stdout = devnull
+	}
+	log.SetOutput(io.Discard)
 	c := &ctx{w: cases.New(*out, *stream), r: rng.New(*seed), tier: *tier, scale: *scale}
 	c.w.Only = *only
 	if *tier == "thorough" {
@@ -267,6 +274,7 @@ type clientCfg struct {
 	path   string // broadcast | udp | tcp
 	bind   int    // 0 or a fixed port
 	bindIP string // "" = 127.0.0.1
+	debug  bool   // the client's debug flag (logging only: nothing observable may depend on it)
 }
 
 func newRealClient(cfg clientCfg, serial uint32, endpoint string) uhppote.IUHPPOTE {
@@ -285,7 +293,7 @@ func newRealClient(cfg clientCfg, serial uint32, endpoint string) uhppote.IUHPPO
 	default:
 		devices = append(devices, uhppote.Device{DeviceID: serial, Address: types.ControllerAddrFrom(ap.Addr(), ap.Port()), Protocol: cfg.path})
 	}
-	return uhppote.NewUHPPOTE(bind, broadcast, listen, T, devices, false)
+	return uhppote.NewUHPPOTE(bind, broadcast, listen, T, devices, cfg.debug)
 }
 
 func timeClass(d time.Duration) string {
